@@ -211,9 +211,10 @@ def run(ck):
             ch = cg.path_to_ext([root], NONDET)
             ck.ob("EFF", root, "no-nondeterminism", ch is None, "no call path to RNG/clock/env" if ch is None else " -> ".join(ch), "")
 
-    narrowing_len_sweep(ck, crate("rs", "concordium_base"), re.compile(r"concordium_base::bulletproofs::"), re.compile(r"verify[a-z_0-9]*(::\\{closure#\\d+\\})*$"))
+    narrowing_len_sweep(ck, crate("rs", "concordium_base"), re.compile(r"concordium_base::bulletproofs::"), re.compile(r"verify[a-z_0-9]*(::\{closure#\d+\})*$"))
 
-    eq_polarity_sweep(ck, crate("rs", "concordium_base"), re.compile(r"concordium_base::bulletproofs::"), re.compile(r"verify[a-z_0-9]*(::\\{closure#\\d+\\})*$"))
+    eq_polarity_sweep(ck, crate("rs", "concordium_base"), re.compile(r"concordium_base::bulletproofs::"), re.compile(r"verify[a-z_0-9]*(::\{closure#\d+\})*$"))
+    rejecting_checks_floor(ck, crate("rs", "concordium_base"), re.compile(r"concordium_base::bulletproofs::"), re.compile(r"(verify|verifier|validate|check|extract_commit_message)[a-z_0-9]*(::\{closure#\d+\})*$"), "C11")
 
 
 def array_ops(f, op):
